@@ -726,3 +726,59 @@ def rule_compaction(ctx, rep, config="c-lib"):
             rep.violation("R11-move", key, "a child pointer is copied to another slot and stays in its old slot too: after the reduction the node has the child twice, "
                           "free_tree_sweep releases it (and calls the terminal callback for its TERM nodes) twice", where=s.where(), witness=[s.where()])
     rep.floor("R11-move", "child moves in free_tree_reduce", n, 1)
+
+
+def rule_alt_relink(ctx, rep, config="c-lib"):
+    rep.rule("R13-relink", "prune_to_minimal rebuilds the list of minimal alternatives: an alternative's `next' receives NULL or the list kept so far (the loop-carried "
+                           "variable that accumulates the kept alternatives and is returned), never the original list")
+    p = ctx.prog(config)
+    f = p.fn("prune_to_minimal")
+    rep.cover(p, [f.name])
+    stores = [s for s in f.all_insts() if s.op == "store" and (resolve_addr(f, s.ops[1]).last_field() or "").endswith("yaep_alt.next")]
+    if len(stores) < 2:
+        raise AnalysisBroken("R13-relink: %d stores to alt.next in prune_to_minimal" % len(stores))
+    # the accumulator: a loop-header phi one of whose incoming values is the current alternative
+    L = None
+    for L_ in f.loops():
+        if all(s.block.name in L_["body"] for s in stores):
+            L = L_ if (L is None or len(L_["body"]) < len(L["body"])) else L
+    if L is None:
+        raise AnalysisBroken("R13-relink: the stores to alt.next are not in one loop")
+    alt_allocas = set()
+    for s in stores:
+        pa = resolve_addr(f, s.ops[1])
+        h = f.inst(strip_casts(f, pa.root[1])) if pa.root[0] == "val" else None
+        if h is not None and h.op == "load":
+            hp = resolve_addr(f, h.ops[0])
+            if hp.root[0] == "alloca":
+                alt_allocas.add(hp.root[1])
+    acc = set()
+    for bn in L["body"]:
+        for ph in f.bmap[bn].insts:
+            if ph.op != "phi":
+                continue
+            for (v, _) in ph.d["incoming"]:
+                vi = f.inst(strip_casts(f, v))
+                if vi is not None and vi.op == "load":
+                    vp = resolve_addr(f, vi.ops[0])
+                    if vp.root[0] == "alloca" and vp.root[1] in alt_allocas and not vp.steps:
+                        acc.add(ph.id)
+    # closure over phis of phis
+    changed = True
+    while changed:
+        changed = False
+        for bn in L["body"]:
+            for ph in f.bmap[bn].insts:
+                if ph.op == "phi" and ph.id not in acc and any(strip_casts(f, v).get("v") in acc for (v, _) in ph.d["incoming"]):
+                    acc.add(ph.id)
+                    changed = True
+    n = 0
+    for s in stores:
+        n += 1
+        key = "prune_to_minimal/alt.next#%d" % n
+        v = strip_casts(f, s.ops[0])
+        if v.get("k") == "null" or v.get("v") in acc:
+            rep.ok("R13-relink", key, sample={"store": s.where()})
+        else:
+            rep.violation("R13-relink", key, "an alternative kept by the pruning is linked to something else than the list of alternatives kept so far: alternatives that were "
+                          "dropped come back into the result, kept ones in between are lost", where=s.where(), witness=[s.where()])
